@@ -122,10 +122,10 @@ type poly struct {
 	fam  string
 }
 
-func gridPolys(maxN int) []poly {
+func gridPolys(w, maxN int) []poly {
 	var pts []v2.Vec
-	for x := 0; x < 4; x++ {
-		for y := 0; y < 4; y++ {
+	for x := 0; x < w; x++ {
+		for y := 0; y < w; y++ {
 			pts = append(pts, v2.Vec{X: float64(x), Y: float64(y)})
 		}
 	}
@@ -139,7 +139,7 @@ func gridPolys(maxN int) []poly {
 				vs[i] = pts[k]
 			}
 			if simple(vs) {
-				out = append(out, poly{fmt.Sprint(vs), vs, fmt.Sprintf("grid-n=%d", len(vs))})
+				out = append(out, poly{fmt.Sprint(vs), vs, fmt.Sprintf("grid%dx%d-n=%d", w, w, len(vs))})
 			}
 		}
 		if len(cur) == maxN {
@@ -245,7 +245,10 @@ func uniqSorted(m map[float64]bool) []float64 {
 
 func main() {
 	c := vlib.Start("C04")
-	polys := gridPolys(vlib.Pick(c, 5, 6))
+	polys := gridPolys(4, vlib.Pick(c, 5, 7))
+	if c.Thorough() {
+		polys = append(polys, gridPolys(5, 4)...)
+	}
 	ngrid := len(polys)
 	polys = append(polys, families()...)
 	var pts, depth3, nontrivial int64
@@ -385,7 +388,7 @@ func main() {
 		Rule:        "states = polygons (every simple polygon on the grid in both orientations + families); transitions = query points put through the three-way comparison; non-trivial = polygons evaluated",
 		Samples:     []any{polys[0].v, polys[ngrid/2].v, polys[ngrid].name, polys[len(polys)-1].name, map[string]any{"grid_polygons": ngrid, "family_polygons": len(polys) - ngrid}},
 		Exhaustive:  true,
-		Bounds:      map[string]any{"grid": "4x4 integer", "max_vertices": vlib.Pick(c, 5, 6), "query": "quarter-integer lattice over the box +-1, every quadtree box corner/centre coordinate and +-1 ulp, vertex levels +-1 ulp, +-1000 x size"},
+		Bounds:      map[string]any{"grid": "4x4 integer (thorough: also 5x5 with <= 4 vertices)", "max_vertices": vlib.Pick(c, 5, 7), "query": "quarter-integer lattice over the box +-1, every quadtree box corner/centre coordinate and +-1 ulp, vertex levels +-1 ulp, +-1000 x size"},
 		Assumptions: []string{"inside/outside by exact orientation predicates (float filter with rational fallback); distance in float64 with 1e-9 relative tolerance", "points whose exact distance is <= 1e-9 are only required to return |value| <= 1e-9"},
 	})
 }
